@@ -127,33 +127,52 @@ def run(chk, prog):
             chk.finding("post-rules", po.key, "reply", "", "%s:%s" % (po.file, po.line),
                         "post_rules does not separate the failed and the successful reload (one set_rules call, error -> error response, success -> re-read)")
     # ---------------------------------------------------------------- (5) serde round trip
-    rule = None
-    for a in prog.items["redproxy_rs"]["adts"]:
-        if a["path"] == "rules::Rule":
-            rule = a
-    if rule is None:
-        chk.anchor_missing("round-trip", "rules::Rule")
+    # read from the *derived impls* (serde's helper attributes are not visible after expansion): the literals passed to
+    # serialize_field in Serialize::serialize vs the literals matched by the field visitor of Deserialize
+    ser_f = [f for f in prog.fns.values() if f.crate == "redproxy_rs" and re.search(r"impl serde::ser::Serialize for rules::Rule>::serialize$", f.path)]
+    de_f = [f for f in prog.fns.values() if f.crate == "redproxy_rs" and re.search(r"Deserialize<'de> for rules::Rule>::deserialize::__FieldVisitor as serde::de::Visitor<'de>>::visit_str$", f.path)]
+    if len(ser_f) != 1 or len(de_f) != 1:
+        chk.anchor_missing("round-trip", "derived Serialize/Deserialize impls of rules::Rule")
         return
-    ser, de = {}, {}
-    for fl in rule["variants"][0]["fields"]:
-        attrs = " ".join(fl["attrs"])
-        name = fl["name"]
-        m = re.search(r'rename\s*=\s*"([^"]+)"', attrs)
-        wire = m.group(1) if m else name
-        skip_all = re.search(r"serde\([^)]*\bskip\b(?!_)", attrs) is not None
-        skip_ser = skip_all or "skip_serializing" in attrs
-        skip_de = skip_all or "skip_deserializing" in attrs
-        if not skip_ser:
-            ser[wire] = name
-        if not skip_de:
-            de[wire] = name
-    ok = set(de) <= set(ser) and len(de) >= 2
-    chk.instance("round-trip", rule["span"]["f"], "Rule: deserialised fields %s are all serialised (%s) under the same names" % (sorted(de), sorted(ser)), ok)
+    sf, df = ser_f[0], de_f[0]
+    ser = {}
+    for c in sf.calls:
+        if re.search(r"SerializeStruct::serialize_field$", c.path or "") and len(c.args) >= 3:
+            name = sf.str_of(c.args[1])
+            fld = None
+            tr = sf.trace(op_base(c.args[2])) if op_base(c.args[2]) is not None else []
+            for k, info in tr:
+                if k in ("ref", "place"):
+                    fs = [x[2:] for x in info[1:] if x.startswith("f:")]
+                    if fs:
+                        fld = fs[-1]
+            if name is not None:
+                ser[name] = fld
+    de = set()
+    for c in df.calls:
+        for a in c.args:
+            v = df.str_of(a)
+            if v is not None:
+                de.add(v)
+    for b in df.reachable:
+        for st in df.stmts(b):
+            if st["k"] == "assign":
+                from ..mir import rv_operands, const_str
+                for o in rv_operands(st["rv"]):
+                    v = const_str(o)
+                    if v is not None:
+                        de.add(v)
+    ok = len(de) >= 2 and de <= set(ser)
+    chk.instance("round-trip", sf.file, "Rule: every deserialised field %s is also serialised (%s)" % (sorted(de), sorted(ser)), ok)
     if not ok:
-        chk.finding("round-trip", "rules::Rule", "serde-fields", "", rule["span"]["f"],
+        chk.finding("round-trip", "rules::Rule", "serde-fields", "", sf.file,
                     "GET /rules does not emit every field POST /rules reads (reads %s, writes %s): posting back what was read changes the rules" % (sorted(de), sorted(ser)))
-    for wire, name in de.items():
-        ok = ser.get(wire) == name
-        chk.instance("round-trip", rule["span"]["f"], "field %r maps to the same struct field both ways" % wire, ok)
-        if not ok:
-            chk.finding("round-trip", "rules::Rule", "serde-name", wire, rule["span"]["f"], "wire field %r is read into %s but written from %s" % (wire, name, ser.get(wire)))
+    # the two user-facing fields are written from the fields they are read into
+    want = {"target": "target_name", "filter": "filter_str"}
+    for wire, fld in want.items():
+        if wire in de:
+            ok = ser.get(wire) == fld
+            chk.instance("round-trip", sf.file, "wire field %r is written from Rule.%s" % (wire, fld), ok, "written from %s" % ser.get(wire))
+            if not ok:
+                chk.finding("round-trip", "rules::Rule", "serde-name", wire, sf.file,
+                            "wire field %r is written from Rule.%s instead of Rule.%s: a round trip changes the rule" % (wire, ser.get(wire), fld))
